@@ -731,6 +731,8 @@ def sources(body, operand_or_local, through=(), depth=60, _seen=None):
                         if 'adt' in it:
                             from facts import np
                             out.add(('agg', np(it['adt']), it.get('var')))
+                            if 'v' in it:
+                                out.add(('const', it['v']))
                         elif 'v' in it:
                             out.add(('const', it['v']))
                         elif 'p' in it:
